@@ -368,6 +368,9 @@ where
 
 pub struct ListenerMarkT { }
 /// `drop(x)`: no effect on anything else (destructor side effects are not modelled)
+pub assume_specification [usize::div_ceil] (a: usize, b: usize) -> (r: usize)
+    requires b != 0,
+    ensures r as int == (a as int + b as int - 1) / (b as int);
 pub assume_specification<T>[ core::mem::drop::<T> ](_0: T);
 pub open spec fn garbage_is<E: Eviction>(g: (Event, Arc<Record<E>>), ev: Event, r: Arc<Record<E>>) -> bool {
     g.0 == ev && g.1 == r
@@ -742,11 +745,12 @@ impl<E: Eviction> CacheT<E> {
 
 // ---- RawCache::flush after the shards were evicted (C13, C15): the listener (if any) is told about every evicted record
 // once, AND -- independently of whether there is a listener -- every evicted record is handed to pipe.flush exactly once
-// when the pipe is enabled. One region from `let piped = ..` to the end of the function.
+// when the pipe is enabled. One region from the statement after the shard loop to the end of the function.
 // the iterator-adapter line `garbages.into_iter().map(|(_, record)| Piece::new(record)).collect_vec()` is outside
 // Verus; it is replaced by the prelude function `pieces_of` (assumed: one piece per garbage record, in order)
-//@region foyer-memory/src/raw.rs :: impl~^impl<E, S, I> RawCache<E, S, I> where/fn flush name=flush_dispatch start=/let piped = / stmts=99 rules=for-tuple-pattern,de-async subopt=@garbages\.into_iter\(\)\.map\(\|\(_, record\)\| Piece::new\(record\)\)\.collect_vec\(\)@pieces_of(garbages)@
+//@region foyer-memory/src/raw.rs :: impl~^impl<E, S, I> RawCache<E, S, I> where/fn flush name=flush_dispatch start=/for shard in self\.inner\.shards\.iter\(\) \{/ skip=1 stmts=99 rules=for-tuple-pattern,de-async subopt=@garbages\.into_iter\(\)\.map\(\|\(_, record\)\| Piece::new\(record\)\)\.collect_vec\(\)@pieces_of(garbages)@
 //@head
+    #[verifier::loop_isolation(false)]
     fn flush_dispatch(&mut self, garbages: Vec<(Event, Arc<Record<E>>)>)
         ensures
             final(self).pipe.enabled == old(self).pipe.enabled,
@@ -758,7 +762,7 @@ impl<E: Eviction> CacheT<E> {
 //@loop 1 iter=it
                 invariant
                     listener.left@ == l0 + notes_of(garbages@.subrange(0, it.index@ as int)),
-                    self.pipe == old(self).pipe, piped == old(self).pipe.enabled,
+                    self.pipe == old(self).pipe,
 //@before /for verif_item in/
             let ghost l0 = listener.left@;
 //@after /let \(event, record\) = verif_item;/
@@ -968,7 +972,7 @@ impl CapT {
             forall|i: int| 0 <= i < shards ==> (#[trigger] r@[i]) == share(capacity as nat, shards as nat, i as nat), // @label resize_gives_every_shard_its_share_including_the_remainder
 //@loop 1 optional
             invariant verif_i <= shards, shards > 0, shard_capacities@.len() == verif_i,
-                forall|i: int| 0 <= i < verif_i ==> (#[trigger] shard_capacities@[i]) == share(capacity as nat, shards as nat, i as nat),
+                forall|i: int| 0 <= i < verif_i ==> (#[trigger] shard_capacities@[i]) == share(capacity as nat, shards as nat, i as nat), // @label construction_gives_every_shard_its_share_including_the_remainder
             decreases shards - verif_i,
 //@tail
         shard_capacities
@@ -982,7 +986,7 @@ impl CapT {
             forall|i: int| 0 <= i < shards ==> (#[trigger] r@[i]) == share(capacity as nat, shards as nat, i as nat), // @label construction_gives_every_shard_its_share_including_the_remainder
 //@loop 1 optional
             invariant verif_i <= shards, shards > 0, shard_capacities@.len() == verif_i,
-                forall|i: int| 0 <= i < verif_i ==> (#[trigger] shard_capacities@[i]) == share(capacity as nat, shards as nat, i as nat),
+                forall|i: int| 0 <= i < verif_i ==> (#[trigger] shard_capacities@[i]) == share(capacity as nat, shards as nat, i as nat), // @label construction_gives_every_shard_its_share_including_the_remainder
             decreases shards - verif_i,
 //@tail
         shard_capacities
